@@ -20,7 +20,8 @@ Record node := mkNode { virt : list vq; sims : list sq; regs : list reg;
                         numRegs : nat; nextReg : nat; maxQ : nat; maxR : nat }.
 Record net := mkNet { nodes : list node; next_hid : nat }.
 
-Inductive g1 := NX | NY | NZ | NH | NK | NT | NRot.
+Inductive g1 := NX | NY | NZ | NH | NK | NT | NRot
+  | NS.   (* remote_apply_S: present since the D7 repair (fix: apply_S plumbed through the virtual node) *)
 Inductive g2 := NCnot | NCphase.
 Inductive op :=
 | ONew (n : nat)
@@ -91,7 +92,7 @@ Definition remove_vq (h : nat) (l : list vq) : list vq := filter (fun q => negb 
 
 (* ---- engine calls (stabilizer backend) --------------------------------------------------------- *)
 Definition gate1_of (g : g1) : option gate1 :=
-  match g with NX => Some GX | NY => Some GY | NZ => Some GZ | NH => Some GH | NK => Some GK
+  match g with NX => Some GX | NY => Some GY | NZ => Some GZ | NH => Some GH | NK => Some GK | NS => Some GS
              | NT | NRot => None end.
 Definition gate2_of (g : g2) : gate2 := match g with NCnot => GCNOT | NCphase => GCZ end.
 
